@@ -91,7 +91,7 @@ PROPS = {
         "timeout": 1500,
     },
     "C02": {
-        "lean_modules": ["JrpcProofs.Props.C02", "JrpcProofs.Lemmas.Corr", "JrpcProofs.Facts.Corr", "JrpcProofs.Facts.Frames", "JrpcProofs.Facts.OneShot", "JrpcProofs.Facts.Writers"],
+        "lean_modules": ["JrpcProofs.Props.C02", "JrpcProofs.Lemmas.Corr", "JrpcProofs.Facts.Corr", "JrpcProofs.Facts.Frames", "JrpcProofs.Facts.OneShot", "JrpcProofs.Facts.Writers", "JrpcProofs.Facts.Call"],
         "assumptions": [
             "hooks only delay goroutines; two log entries written by different goroutines around one channel rendezvous may come in either order and are reconciled by the replayer (tau steps are counted in the evidence)",
             "ids of calls that are inside doRequest at the same time differ (id counter; int64 to float64 keys are injective below 2^53 calls)",
@@ -138,7 +138,7 @@ PROPS = {
         ],
     },
     "C16": {
-        "lean_modules": ["JrpcProofs.Props.C16", "JrpcProofs.Facts.Reverse", "JrpcProofs.Facts.Corr", "JrpcProofs.Facts.Dispatch", "JrpcProofs.Facts.Naming"],
+        "lean_modules": ["JrpcProofs.Props.C16", "JrpcProofs.Facts.Reverse", "JrpcProofs.Facts.Corr", "JrpcProofs.Facts.Dispatch", "JrpcProofs.Facts.Naming", "JrpcProofs.Facts.Cancel", "JrpcProofs.Facts.Frames"],
         "assumptions": [
             "context.WithValue / Value and handler-context derivation are Go's (modelled as: a handler serving connection c sees exactly the value stored for c)",
             "'gone' means the server noticed the loss (FIN, RST, client close): the server side configures no timeout, so a silent peer is never noticed there (that is C17's territory, client side only)",
